@@ -110,22 +110,6 @@ def run_serde_cases(chk, cases, broken):
     """The cases against the hand-written model (Corr.Serde.check_case) and, when the translation of serde.py builds, against the
     translated source run inside Coq as well (Corr.SerdeGen.check_case_gen).  Returns (indices where the model disagrees with the
     implementation, indices where only the translated source disagrees, broken)."""
-    mism, translated = [], []
-    try:
-        if broken is None and chk.corr_buildable(["Corr/SerdeGen.vo"]):
-            # the translated code keeps the buffer as a Python-style list of bytes (each bit written costs a list update), which is
-            # some ten times slower to evaluate than the model: in the thorough tier the first 24000 cases go through both
-            cap = 24000
-            both = common.run_cases("SerdeGen", cases[:cap], check="check_case_gen")
-            chk.coverage["cases_also_run_on_the_translated_source"] = min(len(cases), cap)
-            if both:
-                again = common.run_cases("Serde", [cases[i] for i in both])
-                mism = [both[j] for j in again]
-                translated = [i for i in both if i not in set(mism)]
-            if len(cases) > cap:
-                mism += [cap + i for i in common.run_cases("Serde", cases[cap:])]
-        elif broken is None or chk.corr_buildable(["Corr/Serde.vo"]):
-            mism = common.run_cases("Serde", cases)
-    except common.CoqError as e:
-        broken = f"correspondence could not be evaluated: {e}"
-    return mism, translated, broken
+    # (the translated code keeps the buffer as a Python-style list of bytes - each bit costs a list look-up or update - which is some
+    # ten times slower to evaluate than the model and quadratic in the message length: see common.run_model_and_translated)
+    return common.run_model_and_translated(chk, "Serde", "SerdeGen", cases, broken)
